@@ -22,6 +22,11 @@ TARGETS = {
     'be': ['--target=powerpc64-unknown-linux-gnu', '-nostdlibinc', '-isystem', STUBS],
     'be32': ['--target=mips-unknown-linux-gnu', '-nostdlibinc', '-isystem', STUBS],
     'le32': ['--target=i386-unknown-linux-gnu', '-nostdlibinc', '-isystem', STUBS],
+    # little-endian core without unaligned access (Cortex-M0): __arm__, __ARM_ARCH_6M__, no __ARM_FEATURE_UNALIGNED,
+    # plain char unsigned - the configuration `#ifdef`s for strict-alignment targets select
+    'le32s': ['--target=armv6m-none-eabi', '-nostdlibinc', '-isystem', STUBS],
+    # big-endian host that traps on misaligned accesses (__sparc__)
+    'be32s': ['--target=sparc-unknown-linux-gnu', '-nostdlibinc', '-isystem', STUBS],
 }
 
 
